@@ -14,7 +14,7 @@ def run(ctx):
     rep.add(rule="one leaf = (primitive spec, point, every spec choice, differentiated argnum); the whole reverse Jacobian "
                  "(all basis cotangents) is compared with the trust-tested numerical Jacobian of NumPy; non-trivial = "
                  "Jacobian with more than one entry and not identically zero",
-            bound="rank<=%d dims {1,2,3}, %d points per configuration" % (3 if ctx.quick else 4, 2 if ctx.quick else 3))
+            bound="quick: rank<=2 dims {1,2,3} + rank 3 dims {1,2}, 1 point; thorough: rank<=3 dims {1,2,3} + rank 4 dims {1,2}, 2 points; plus empty (size-0) broadcast pairs and the kink alphabet")
     rep.assumptions = ["finite point alphabet (quasi-random generic fills, phase shifted by VERIF_SEED)",
                        "oracle: 6th-order Richardson central differences of plain NumPy with a trust test; tolerance 1e-6 relative",
                        "configurations where NumPy itself raises are outside the space (skipped)"]
